@@ -99,7 +99,7 @@ def _work(sc):
         C = Interner()
         r = cd.run_op_with_images(sc["kind"], sc["prep"], sc["op"], C, cfgbackend=sc["cfgbackend"],
                                   warm=sc.get("warm", ()), interrupts=sc.get("interrupts", 0),
-                                  seed=sc.get("seed", 0))
+                                  seed=sc.get("seed", 0), foreign_tmp=sc.get("foreign_tmp", False))
         op = sc["op"]
         rec = {"kind": sc["kind"] + ("-gitcfg" if sc["cfgbackend"] else ""), "t": op.get("as", op["t"]),
                "n": op.get("n") or op.get("p"), "prior": sc["prior"], "opname": sc["opname"],
@@ -108,7 +108,8 @@ def _work(sc):
                "images": [{"k": im["k"], "gate": im["gate"], "torn": im["torn"], "obs": im["obs"]}
                           for im in r["images"]],
                "gates": r["gates"], "nevents": r["nevents"], "basekind": sc["kind"],
-               "interrupt_points": r["interrupt_points"], "interrupt_lines": r["interrupt_lines"]}
+               "interrupt_points": r["interrupt_points"], "interrupt_lines": r["interrupt_lines"],
+               "foreign_tmp": r["foreign_tmp"]}
         return {"ok": True, "rec": rec}
     except Exception:
         return {"ok": False, "error": traceback.format_exc(), "sc": {k: v for k, v in sc.items() if k not in ("prep", "op")}}
@@ -172,6 +173,13 @@ def run(prop, tier, seed, replay=None):
         # death by a signal delivered as an exception, at sampled lines of the store / git code
         sc["interrupts"] = 40 if tier == "quick" else 400
         sc["seed"] = seed * 1000 + i
+    # the same operations in a deployment whose temporary directory is on another file system
+    # than the data (a rename from there is a copy)
+    more = []
+    for sc in scs:
+        if sc["prior"] == "one" and not sc.get("warm") and not sc["cfgbackend"] and sc["op"]["t"] != "http":
+            more.append(dict(sc, foreign_tmp=True, interrupts=0, prior="one", opname=sc["opname"] + "@tmpfs"))
+    scs += more
     if replay:
         r = json.load(open(replay))
         scs = [s for s in scs if (s["kind"], s["prior"], s["opname"], s["cfgbackend"]) ==
@@ -234,6 +242,7 @@ def run(prop, tier, seed, replay=None):
         "crash_points": sum(r["nevents"] for r in recs),
         "interrupt_points": sum(r["interrupt_points"] for r in recs),
         "interrupt_lines_total": sum(r["interrupt_lines"] for r in recs),
+        "operations_with_foreign_tmpdir": sum(1 for r in recs if r.get("foreign_tmp")),
         "model": models,
         "states": sum(m["distinct"] for m in models) + stat["distinct"] + cstates,
         "exhaustive": True,
